@@ -309,4 +309,43 @@ theorem markers_under_token (src lines : List Str) (k : Nat) (pre tok post post'
 example : charColumn "s = \"é字\"; x = y".toList (byteLen "s = \"é字\"; x = ".toList) = 14
     ∧ byteLen "s = \"é字\"; x = ".toList = 17 := by decide
 
+/-! ## registrations over time -/
+
+/-- **C29 (latest registration wins)**: after any history of `add_file` calls (with or without
+    explicit content, file names repeated at will) on top of any map, looking a file up yields the
+    lines stored by the last call for that name; other names are unaffected. -/
+theorem latest_registration_wins (m : SourceMap) (ops : List SrcOp) (file : Str) :
+    (m.applyOps ops).lookup file = (match latest ops file with
+      | some ls => some ls
+      | none => m.lookup file) := by
+  induction ops generalizing m with
+  | nil => simp [SourceMap.applyOps, latest]
+  | cons op ops ih =>
+    have h := ih (m.addFile op)
+    unfold SourceMap.applyOps at h ⊢
+    rw [List.foldl_cons, h]
+    have hl : latest (op :: ops) file = (match latest ops file with
+        | some ls => some ls
+        | none => if op.file = file then some op.stored else none) := rfl
+    rw [hl]
+    cases latest ops file with
+    | some ls => rfl
+    | none =>
+      simp only [SourceMap.addFile, SourceMap.lookup]
+      split <;> rfl
+
+/-- a snippet is rendered from the latest registered text of its file (so all theorems above
+    apply to that text), and rendering a span of a never-registered file raises `KeyError` -/
+theorem render_shows_latest (ops : List SrcOp) (file : Str) (s : Span) (label : Option Str) (maxLn : Nat)
+    (prim : Bool) (pfx : Nat) :
+    renderIn ops file s label maxLn prim pfx = (match latest ops file with
+      | some src => renderSnippet src s label maxLn prim pfx
+      | none => .error .key) := by
+  unfold renderIn
+  rw [latest_registration_wins]
+  cases latest ops file <;> rfl
+
+example : latest [.content "f".toList "old".toList, .content "g".toList "x".toList,
+    .cache "f".toList ["new  \n".toList]] "f".toList = some ["new".toList] := by decide
+
 end GuppyVerif.Render
